@@ -35,7 +35,9 @@ pub trait Base64Instructions<F: CircuitField> {
     ///
     /// # Panics
     ///
-    /// If `padded` = true and the input length is not a multiple of 4.
+    /// If `padded` = true and the input length is not a multiple of 4. If
+    /// `padded` = false and the input length is 1 modulo 4 (which is not the
+    /// length of any base64 encoded string).
     fn decode_base64url(
         &self,
         layouter: &mut impl Layouter<F>,
@@ -53,7 +55,9 @@ pub trait Base64Instructions<F: CircuitField> {
     ///
     /// # Panics
     ///
-    /// If `padded` = true and the input length is not a multiple of 4.
+    /// If `padded` = true and the input length is not a multiple of 4. If
+    /// `padded` = false and the input length is 1 modulo 4 (which is not the
+    /// length of any base64 encoded string).
     fn decode_base64(
         &self,
         layouter: &mut impl Layouter<F>,
